@@ -103,9 +103,9 @@ def schedule(case):
 
 
 def horizon(case, sched) -> float:
-    waits = sum(a for _, k, a in sched if k == "busy")
-    nb = sum(1 for _, k, _ in sched if k == "busy")
-    ns = sum(a for _, k, a in sched if k != "busy")
+    waits = sum(a for _, k, a in sched if k in ("busy", "race"))
+    nb = sum(1 for _, k, _ in sched if k in ("busy", "race"))
+    ns = sum(a for _, k, a in sched if k not in ("busy", "race"))
     last = sched[-1][0] if sched else BASE_T
     return last + waits / 1000.0 + nb * (nb * 0.05 + 0.2) + ns * SPACING + 1.0
 
@@ -140,7 +140,7 @@ class PauseModel:
     def busy(self, t: float, wait_ms: int, seq: int) -> None:
         self._advance(t)
         prev, self.last_busy = self.last_busy, t
-        if self.end is not None and t < self.end:  # pausing
+        if self.end is not None and t < self.end - EPS:  # pausing
             if prev is not None and t - prev > COOLDOWN:
                 self.N += 1
             if t >= self.start + self.wait_ms / 1000.0:
@@ -163,9 +163,9 @@ def current_pause(pauses, t: float, seq: int | None = None):
     """The pause set by the latest pause-setting frame at or before (t, seq)."""
     cur = None
     for p in pauses:
-        if p["t"] < t or (p["t"] == t and (seq is None or p["seq"] < seq)):
+        if p["t"] < t - EPS or (abs(p["t"] - t) <= EPS and (seq is None or p["seq"] < seq)):
             cur = p
-        elif p["t"] > t:
+        elif p["t"] > t + EPS:
             break
     return cur
 
@@ -232,15 +232,35 @@ def execute(case):
                     listener.protocol.datagram_received(busy_frame(arg), PEER)
                 except Exception as e:  # noqa: BLE001
                     events.append((loop.time(), "rxexc", exc_site(e), repr(e)))
+            elif kind == "race":
+                armed.append(arg)
             elif kind == "conc":
                 for _ in range(arg):
                     tasks.append(loop.create_task(one_send()))
             else:
                 tasks.append(loop.create_task(seq_sends(arg)))
 
+        # "race": a busy frame that arrives in the loop iteration right after the pause timer fired -
+        # after `_ready` was set, before the held senders run (a datagram becoming readable while the
+        # loop processes the timer). The internal Event is read for *scheduling* only, never for the verdict.
+        armed: list[int] = []
+        fc_ready = getattr(getattr(routing, "_flow_control", None), "_ready", None)
+        was_set = [True]
+
+        def hook(_tick: int) -> None:
+            if fc_ready is None:
+                return
+            now_set = fc_ready.is_set()
+            if armed and now_set and not was_set[0]:
+                act("busy", armed.pop(0))
+                now_set = fc_ready.is_set()
+            was_set[0] = now_set
+
+        loop.tick_hooks.append(hook)
         for t, kind, arg in sched:
             loop.call_at(t, act, kind, arg)
         await asyncio.sleep(horizon(case, sched) - loop.time())
+        loop.tick_hooks.remove(hook)
         pending = [i for i, r in sends.items() if r["done"] is None and r["exc"] is None]
         await routing.disconnect()
         xknx.started.clear()
@@ -345,7 +365,9 @@ def judge(ctx, case, sched, events, sends, escaped, rs) -> dict:
         if p is None:
             continue
         if x["t"] < p["base_end"] - EPS:
-            ctx.fail("C27:sent-during-pause", inp, f"indication of send {x['who']} at {x['t']:.6f}; RoutingBusy(wait={p['wait_ms']} ms) received at {p['t']:.6f} set the current pause until {p['base_end']:.6f}")
+            # sent in the very instant the busy frame arrived (after it): a sender woken by the end of the previous pause
+            same_instant = abs(x["t"] - p["t"]) <= EPS
+            ctx.fail("C27:sent-during-pause:woken-sender-does-not-recheck" if same_instant else "C27:sent-during-pause", inp, f"indication of send {x['who']} at {x['t']:.6f}; RoutingBusy(wait={p['wait_ms']} ms) received at {p['t']:.6f} set the current pause until {p['base_end']:.6f}")
             break
         if x["t"] < p["end"] - EPS:
             ctx.fail("C27:sent-during-extension", inp, f"indication of send {x['who']} at {x['t']:.6f}; pause set at {p['t']:.6f} wait={p['wait_ms']} ms + extension {p['ext'] * 1000:.3f} ms (N={p['N']}) ends {p['end']:.6f}")
@@ -400,13 +422,14 @@ _gap = st.one_of(
 _wait = st.one_of(st.integers(0, 60), st.sampled_from([0, 1, 5, 10, 20, 30, 50, 100, 100, 200, 500, 3000]), st.integers(0, 3000))
 _busy = st.tuples(st.just("busy"), _gap, _wait)
 _send = st.tuples(st.sampled_from(["conc", "seq"]), _gap, st.integers(1, 4))
+_race = st.tuples(st.just("race"), st.integers(0, 5), st.sampled_from([1, 10, 30, 100]))
 _r = st.sampled_from([0.0, 0.02, 0.1, 0.2, 0.5, 0.5, 0.9, 0.98])
 
 
 @st.composite
 def histories(draw):
-    ops = draw(st.lists(st.one_of(_busy, _busy, _send), min_size=1, max_size=12))
-    if not any(o[0] != "busy" for o in ops):
+    ops = draw(st.lists(st.one_of(_busy, _busy, _busy, _send, _send, _race), min_size=1, max_size=12))
+    if not any(o[0] in ("conc", "seq") for o in ops):
         ops.append(draw(_send))
     return {"r": draw(st.lists(_r, min_size=1, max_size=3)), "ops": [list(o) for o in ops]}
 
@@ -415,6 +438,8 @@ def _label(case, info) -> list[str]:
     ops = case["ops"]
     cl = []
     nb = sum(1 for o in ops if o[0] == "busy")
+    if any(o[0] == "race" for o in ops):
+        cl.append("busy-racing-the-end-of-a-pause")
     cl.append("busy=0" if nb == 0 else ("busy=1" if nb == 1 else "busy>=2"))
     if any(o[0] == "conc" and o[2] > 1 for o in ops):
         cl.append("concurrent-sends")
